@@ -128,6 +128,48 @@ def handleStats (focus : String) (c : Case) : String := Id.run do
       acc := { acc with corr := acc.corr.push s!"statistics-{if hasStats then "present" else "absent"}-model-says-{tagOut}" }
   if (kind == "ok") != hasStats then
     acc := { acc with mon := acc.mon.push s!"fit_with_statistics-returned-{kind}-hasstats={hasStats}" }
+  -- C12: a fit that failed never comes back with statistics
+  if hasStats && !term.wasSuccessful then
+    acc := { acc with mon := acc.mon.push s!"statistics-returned-for-a-failed-fit({termS})" }
+  -- C06: the row-scaled unweighted twin problem reports the same statistics
+  if focus == "C06" || focus == "all" then
+    if let some tl := c.body.find? (fun l => l.getD 0 "" == "tw" && l.getD 1 "" == "result") then
+      let twStats := attrStr tl "hasstats" == "1"
+      let sameTerm := attrStr tl "term" == termS
+      acc := { acc with compared := acc.compared + 1 }
+      -- a numerically singular normal matrix may be inverted by one elimination and rejected by the
+      -- other (the two H differ in the last bits): only a well determined inversion is compared
+      let wellDet := 1e3 * u * kapEarly * kapEarly * kapEarly * (m + p).toFloat ≤ 1e-3
+      if sameTerm && twStats != hasStats && wellDet && n > m + p then
+        acc := { acc with mon := acc.mon.push s!"weighted-problem-hasstats={hasStats}-row-scaled-twin-hasstats={twStats}" }
+      if sameTerm && twStats && hasStats then
+        let twChi := (c.body.find? (fun l => l.getD 0 "" == "tw" && l.getD 1 "" == "chi2")).map fun l => parseF (l.getD 2 "")
+        let aChi := (stLine c "chi2").map fun l => parseF (l.getD 2 "")
+        let rel := if width == 32 then 1e-3 else 1e-7
+        if let (some a, some b) := (aChi, twChi) then
+          acc := { acc with compared := acc.compared + 1 }
+          if !((a - b).abs ≤ rel * (max a.abs b.abs) + 1e-300) then
+            acc := { acc with mon := acc.mon.push s!"reduced_chi2-weighted={fmtF a}-row-scaled-twin={fmtF b}" }
+        let twCov := (c.body.find? (fun l => l.getD 0 "" == "tw" && l.getD 1 "" == "cov")).map fun l => fmatAt l 2
+        let aCov := (stLine c "cov").map fun l => fmatAt l 2
+        if let (some a, some b) := (aCov, twCov) then
+          if a.r == b.r && a.c == b.c && a.r == m + p then
+            -- entrywise relative to sqrt(c_ii c_jj): rounding differs between w∘(D c) and (w∘D) c, amplified
+            -- by the conditioning of the inversion; a well determined inverse agrees to 1e-5
+            let scaleAt (i j : Nat) : Float := ((a.get i i).abs * (a.get j j).abs).sqrt
+            let mut worst := 0.0
+            for i in [0:a.r] do
+              for j in [0:a.c] do
+                let sc := scaleAt i j
+                if sc > 0.0 && sc.isFinite then
+                  let d := (a.get i j - b.get i j).abs / sc
+                  if d > worst || d.isNaN then worst := d
+            acc := { acc with compared := acc.compared + 1 }
+            let kapGate := 1e3 * u * kapEarly * kapEarly * kapEarly * (m + p).toFloat
+            if kapGate ≤ 1e-3 then
+              if !(worst ≤ (if width == 32 then 1e-2 else 1e-5) + kapGate) then
+                acc := { acc with mon := acc.mon.push s!"covariance-weighted-vs-row-scaled-twin:{fmtF worst}" }
+          else acc := { acc with mon := acc.mon.push "covariance-shape-differs-from-twin" }
   -- C12: N ≤ M + P never yields statistics
   if hasStats && n ≤ m + p then
     acc := { acc with mon := acc.mon.push s!"statistics-for-underdetermined-fit-N={n}-M+P={m+p}" }
